@@ -3,6 +3,7 @@
 package main
 
 import (
+	"unsafe"
 	"bytes"
 	"context"
 	"fmt"
@@ -194,6 +195,68 @@ func c17Race(r *runCtx, id string, f []string) {
 	r.stat("race_rounds")
 }
 
+
+// c17Drained reports whether the reading side has taken every byte written to c so far:
+// for a Unix socket the sender's SIOCOUTQ (bytes the receiver has not consumed), for a pipe
+// FIONREAD, for TCP the sender's SIOCOUTQ (unacknowledged) and the receiving socket's rx_queue in
+// /proc/net/tcp.  Where that cannot be read it answers true (the caller then pauses as before).
+func c17Drained(kind string, c connWriter, serverAddr string) bool {
+	sc, ok := c.(interface {
+		SyscallConn() (syscall.RawConn, error)
+	})
+	if !ok {
+		return true
+	}
+	rc, err := sc.SyscallConn()
+	if err != nil {
+		return true
+	}
+	req := uintptr(0x5411) // SIOCOUTQ
+	if kind == "fifo" {
+		req = 0x541B // FIONREAD
+	}
+	pending := int32(0)
+	if rc.Control(func(fd uintptr) {
+		if _, _, e := syscall.Syscall(syscall.SYS_IOCTL, fd, req, uintptr(unsafe.Pointer(&pending))); e != 0 {
+			pending = 0
+		}
+	}) != nil {
+		return true
+	}
+	if pending != 0 {
+		return false
+	}
+	if kind != "tcp" {
+		return true
+	}
+	nc, ok := c.(net.Conn)
+	if !ok {
+		return true
+	}
+	_, lport, _ := net.SplitHostPort(nc.LocalAddr().String())
+	_, sport, _ := net.SplitHostPort(serverAddr)
+	lp, _ := strconv.Atoi(lport)
+	sp, _ := strconv.Atoi(sport)
+	b, err := os.ReadFile("/proc/net/tcp")
+	if err != nil {
+		return true
+	}
+	wantLocal, wantRem := fmt.Sprintf(":%04X", sp), fmt.Sprintf(":%04X", lp)
+	for _, line := range strings.Split(string(b), "\n") {
+		fs := strings.Fields(line)
+		if len(fs) < 5 || !strings.HasSuffix(fs[1], wantLocal) || !strings.HasSuffix(fs[2], wantRem) {
+			continue
+		}
+		q := strings.Split(fs[4], ":")
+		if len(q) == 2 {
+			if rx, err := strconv.ParseUint(q[1], 16, 64); err == nil && rx != 0 {
+				return false
+			}
+		}
+	}
+	return true
+}
+
 func c17Run(r *runCtx, id string, f []string) {
 	if f[0] == "race" {
 		c17Race(r, id, f)
@@ -300,6 +363,16 @@ func c17Run(r *runCtx, id string, f []string) {
 				delete(conns, p[1])
 			}
 		case "z":
+			// what the stream owes at its cancellation is what it has read: let it read first
+			for _, c := range conns {
+				deadline := time.Now().Add(2 * time.Second)
+				for !c17Drained(kind, c, addr) && time.Now().Before(deadline) {
+					if kind == "fifo" || kind == "unixgram" {
+						hw.wakeAll()
+					}
+					time.Sleep(500 * time.Microsecond)
+				}
+			}
 			cancel()
 		}
 		want, _ := c17Spec(kind, evs[:i+1])
@@ -309,6 +382,18 @@ func c17Run(r *runCtx, id string, f []string) {
 			if kind == "fifo" || kind == "unixgram" {
 				// (a datagram stream that read an empty datagram sleeps until its next poll)
 				hw.wakeAll()
+			}
+			// wait until the kernel says that the stream has taken every byte written so far (under
+			// load a fixed pause is not enough, and bytes the stream has not read when it is
+			// cancelled are not owed); a pause only where the kernel cannot be asked
+			if c, ok := conns[p[1]]; ok {
+				deadline := time.Now().Add(2 * time.Second)
+				for !c17Drained(kind, c, addr) && time.Now().Before(deadline) {
+					if kind == "fifo" || kind == "unixgram" {
+						hw.wakeAll()
+					}
+					time.Sleep(500 * time.Microsecond)
+				}
 			}
 			time.Sleep(8 * time.Millisecond)
 		}
